@@ -622,3 +622,9 @@ func (w *rawWorld) settle() {
 	}
 	kit.Failf("raw-recv-invented", "RecvMsg returned header %x body %q which no connection sent", m.Header, m.Body)
 }
+
+// Bodies re-run by C11 under the race-instrumented build.
+var RaceBodies = map[string]func(){
+	"c05-rep-two-ctx":        func() { schedTwoCtx(rep.NewSocket) },
+	"c05-respondent-two-ctx": func() { schedTwoCtx(respondent.NewSocket) },
+}
